@@ -385,6 +385,56 @@ def k_c14_json(ctx, specs, model_w, code_r):
             ctx.violation("correspondence K.C14.json broken (%s): %s on %s" % (label, kd, text[:300]),
                           {"json_text": text, "variation": label, "code": rr, "model": mm, "correspondence": "K.C14.json", "case_id": cid}, found_input=False)
 
+def mcp_renderings(ctx, specs, code_r):
+    """the property's last clause at the MCP tools: convert_to_dsl of the JSON rendering is the DSL rendering, parse_transactions of either
+    rendering gives the transactions back, calculate_report of the two renderings is the same answer"""
+    import os, shutil
+    from . import props_mcp as PM, mcp as MCP
+    picked = [cid for cid in specs if code_r[cid].get("ok") and code_r[cid].get("json_text") and code_r[cid]["json_back"].get("ok")]
+    picked = [c for c in picked if code_r[c].get("report_orig") is not None][:ctx.n(12, 150)] + [c for c in picked if code_r[c].get("report_orig") is None][:ctx.n(12, 150)]
+    if not picked: return
+    root = os.path.join(build.CACHE, "run", "c14mcp-%d" % os.getpid()); shutil.rmtree(root, ignore_errors=True)
+    try:
+        reqs = []
+        for cid in picked:
+            rr = code_r[cid]; dsl = binascii.unhexlify(rr["dsl_hex"]).decode("utf-8"); js = rr["json_text"]
+            for tool, arg in (("convert_to_dsl", js), ("parse_transactions", js), ("parse_transactions", dsl), ("calculate_report", js), ("calculate_report", dsl)):
+                reqs.append((cid, ("tools/call", {"name": tool, "arguments": {"transactions": arg}})))
+        res = PM.run_session(root, reqs, True, "int")
+        if not res["init"]:
+            ctx.violation("MCP server did not answer initialize", {"summary": {k: v for k, v in res.items() if k != "got"}}, found_input=True); return
+        def text_of(k):
+            rr = res["got"].get(json.dumps(res["ids"][k]), [None])[0] if k < len(res["ids"]) else None
+            if rr is None: return None, "unanswered"
+            if "error" in rr: return None, "error: %s" % str(rr["error"].get("message"))[:160]
+            t, iserr = MCP.tool_text(rr)
+            return (None, "tool error: %s" % (t or "")[:160]) if iserr else (t, None)
+        def strip_zero_labels(v):
+            # the DSL writer omits a zero fee or tax, so its currency label may come back as GBP
+            out = []
+            for t in v:
+                t = json.loads(json.dumps(t))
+                for k in ("fees", "tax_paid"):
+                    if isinstance(t.get(k), dict) and F(t[k]["amount"]) == 0: t[k] = {"amount": str(F(t[k]["amount"])), "currency": "-"}
+                out.append(t)
+            return out
+        for n, cid in enumerate(picked):
+            rr = code_r[cid]; dsl = binascii.unhexlify(rr["dsl_hex"]).decode("utf-8"); js = rr["json_text"]
+            conv, e1 = text_of(5 * n); pj, e2 = text_of(5 * n + 1); pd, e3 = text_of(5 * n + 2); cj, e4 = text_of(5 * n + 3); cd, e5 = text_of(5 * n + 4)
+            ctx.evaluations += 5; ctx.count("mcp_renderings", "compared")
+            bad = None
+            if e1 or e2 or e3: bad = "a tool refuses the tool's own rendering: convert_to_dsl %s, parse(JSON) %s, parse(DSL) %s" % (e1, e2, e3)
+            elif conv.rstrip("\n") != dsl.rstrip("\n"): bad = "convert_to_dsl of the JSON rendering is not the DSL rendering: %r vs %r" % (conv[:200], dsl[:200])
+            elif json.loads(pj) != json.loads(js): bad = "parse_transactions of the JSON rendering changes the transactions"
+            elif strip_zero_labels(json.loads(pd)) != strip_zero_labels(json.loads(js)): bad = "parse_transactions of the DSL rendering differs from the JSON rendering"
+            elif (e4 is None) != (e5 is None): bad = "calculate_report answers one rendering and refuses the other: JSON %s, DSL %s" % (e4, e5)
+            elif e4 is None and json.loads(cj) != json.loads(cd): bad = "calculate_report differs between the JSON and the DSL rendering"
+            if bad:
+                ctx.disagreements_checked += 1
+                ctx.violation("MCP tools: %s" % bad, {"txns": specs[cid], "dsl": dsl, "json_text": js, "convert_to_dsl": conv, "parse_json": pj, "parse_dsl": pd, "case_id": cid}, found_input=True)
+    finally:
+        shutil.rmtree(root, ignore_errors=True)
+
 def k_c14(ctx):
     rng = ctx.rng
     n = ctx.n(2500, 60000)
@@ -433,3 +483,4 @@ def k_c14(ctx):
             ctx.disagreements_checked += 1
             ctx.violation("correspondence K.C14.print broken: %s" % kd, {"txns": spec, "code": rr, "model": mm, "correspondence": "K.C14.print", "case_id": cid}, found_input=False)
     k_c14_json(ctx, specs, m, r)
+    mcp_renderings(ctx, specs, r)
